@@ -38,7 +38,7 @@ class ForcePlatformInfo:
         label = BTSString.bread(stream, 256)  # Docs say 32, but it's actually 256
         size = VEC2F.bread(stream)
         position = ForcePlatformVertices.bread(stream)
-        BTSString.bread(stream, 256)  # Undocumented padding
+        stream.read(256)  # Undocumented padding: content is not text, skip it
 
         return ForcePlatformInfo(label, size, position)
 
